@@ -90,6 +90,12 @@ func c15Gen(r *rng.Rand, i int, tier string) interface{} {
 		in.Descr = []byte{}
 	}
 	kind := r.Intn(100)
+	if tier != "thorough" && kind < 10 {
+		// the big schemas (57-64 string16 columns, 1021-1027 columns) cost seconds each inside Coq: thorough tier only.
+		// The quick tier keeps their boundary cases as corpus files: elements_1024.json, too_many_elements.json,
+		// daily_jan1_write.json (61 string16 columns), name_32_bytes.json, long_name.json.
+		kind = 50
+	}
 	switch {
 	case !clean && kind < 7: // many string16 columns around the threshold where a daily index-0 record reaches the type bytes
 		in.TF, in.Variable = "1D", false
